@@ -116,6 +116,15 @@ var triggers = []trigger{
 		},
 	},
 	{
+		// MVP-6.3/7.x/8: the rename ring holds ten uncommitted writes per
+		// register; with more, older entries are overwritten and only the arrival
+		// order (which back-pressure on the write bus scrambles) is left.
+		id: "KF-W11", props: wmProps,
+		match: func(c *core.Case, f *features, class string) bool {
+			return c.Cfg.V >= mach.MVP63 && f.ringOverflow && isMismatch(class)
+		},
+	},
+	{
 		// MVP-7.x/8 with two or more cores (whole-machine face of KF-R3): a flush
 		// cancels a cache request after it has sent snoop commands to the other
 		// core holding the line; cc.flush releases the line lock at once while
